@@ -15,7 +15,7 @@ package writer
 //verif:stub-always github.com/siglens/siglens/pkg/segment/writer.addSegStatsBool verifC01NoStatsBool
 //verif:stub-always github.com/siglens/siglens/pkg/segment/writer.addSegStatsNums verifC01NoStatsNums
 //verif:stub-always github.com/siglens/siglens/pkg/segment/writer.addRollup verifC01NoRollup
-//verif:bound a fresh block filled with 2 (quick; column b restricted to absent/string/null) / 1..3 (thorough) events through parseSingle*/doLogEventFilling; each event carries any subset of the columns {a, b}, each value a 1..2-byte string, a bool, an int64, a float64 or an explicit null, free contents; the quick tier runs with dictionary bookkeeping switched off (skipDe), the thorough tier with it on; then every column is read back with the reader's own record walk using the recorded column size
+//verif:bound a fresh block filled with 2 (quick; column b restricted to absent/string/null) / 1..2 (thorough; every kind in both columns) events through parseSingle*/doLogEventFilling; each event carries any subset of the columns {a, b}, each value a 1..2-byte string, a bool, an int64, a float64 or an explicit null, free contents; the quick tier runs with dictionary bookkeeping switched off (skipDe), the thorough tier with it on; then every column is read back with the reader's own record walk using the recorded column size
 //verif:outside the JSON tokenizer/flattening, consolidateColumnTypes, bloom filters, segment statistics and rollups (stubbed: none of them writes the column buffers), zstd and files, segment rotation
 
 import (
@@ -40,10 +40,7 @@ func verifC01NoStatsNums(segstats map[string]*structs.SegStats, cname string, in
 func verifC01NoRollup(rrmap map[uint64]*RolledRecs, rolledTs uint64, lastRecNum uint16) {}
 
 func VerifC01ColumnAlignment() {
-	maxEvents := 2
-	if zz.Tier() > 0 {
-		maxEvents = 3
-	}
+	maxEvents := 2 // three events with every kind in both columns did not finish within the thorough tier's time limit
 	nev := maxEvents
 	if zz.Tier() > 0 {
 		nev = 1 + zz.Choice("events", maxEvents)
